@@ -8,6 +8,7 @@ package app
 
 import (
 	"fmt"
+	"slices"
 	"sort"
 	"strings"
 	"time"
@@ -43,9 +44,17 @@ type c08Case struct {
 	LongQuery bool   `json:"long_client_query"`
 	SSFail    bool   `json:"local_semisync_status_fails"`
 	Advances  []int  `json:"advance_s"` // seconds before lost iteration 2,3
+	// TimeoutThenRefuse: remotes that time out in the first lost iteration merely refuse connections
+	// from the second one on (the host came back, its mysqld did not): nothing is unreachable any more
+	TimeoutThenRefuse bool `json:"timing_out_remotes_refuse_from_iteration_2,omitempty"`
 }
 
 func (c c08Case) String() string {
+	if c.TimeoutThenRefuse {
+		cc := c
+		cc.TimeoutThenRefuse = false
+		return cc.String() + " timeout-then-refuse"
+	}
 	var rs []string
 	for _, k := range c.Remotes {
 		rs = append(rs, c08KindNames[k])
@@ -180,6 +189,15 @@ func c08Run(r *vt.Run, c c08Case) {
 		for p := 0; p < passes; p++ {
 			if p > 0 {
 				w.Advance(time.Duration(c.Advances[p-1]) * time.Second)
+			}
+			if p == 1 && c.TimeoutThenRefuse {
+				for i, k := range c.Remotes {
+					if i < len(remoteHosts) && k == kTimeout {
+						w.SetCut(local, remoteHosts[i], false)
+						w.Servers[remoteHosts[i]].Up = false
+						unreachable--
+					}
+				}
 			}
 			muts = muts[:0]
 			roBefore := lsrv.ReadOnly
@@ -373,6 +391,9 @@ func checkC08(r *vt.Run) {
 										return
 									}
 									run(c08Case{Local: "master", Remotes: rem, Async: cf.async, WC: cf.wc, PluginOn: cf.plugin, DisableRO: dis, FailRO: fail, Write: wr > 0, Excluded: wr == 2, LongQuery: lq, Advances: adv})
+									if len(adv) > 0 && adv[0] == 5 && slices.Contains(rem, kTimeout) && wr == 0 && !lq {
+										run(c08Case{Local: "master", Remotes: rem, Async: cf.async, WC: cf.wc, PluginOn: cf.plugin, DisableRO: dis, FailRO: fail, Advances: adv, TimeoutThenRefuse: true})
+									}
 								}
 							}
 						}
